@@ -6,8 +6,9 @@
                 field is not part of the value]
      pointer -> VPtr None | VPtr (Some v)       slice -> VList (nil and empty are identified)
      ints    -> VInt z        bool -> VBool      string kinds -> VStr bytes
-     float64 -> VFloat q      (q = the number scaled by 128; the harness only uses floats that
-                               are exact multiples of 1/128, the model only needs = and = 0)
+     float64 -> VFloat q      (q = an exact integer key of the number, 0 for zero: the harness
+                               sends the sign and the IEEE-754 magnitude bits, so every finite
+                               float64 travels exactly; the model only needs = and = 0)
      time.Time -> VTime t     (t = nanoseconds since the Unix epoch, unbounded Z; instants only,
                                locations are projected away) *)
 From Coq Require Import List String Bool ZArith.
